@@ -3,7 +3,7 @@
    observation computed on the SDK).  Definitions only. *)
 From Coq Require Import List ZArith Bool Ascii String.
 From Basyx Require Import model.Corr model.XsdBase model.XsdRe model.XsdLex model.Xsd model.XsdBin model.XsdDur
-  model.XsdNum gen.Gen_XsdTables.
+  model.XsdNum model.XsdOldUs gen.Gen_XsdTables.
 Import ListNotations.
 Local Open Scope Z_scope.
 
@@ -108,7 +108,7 @@ Definition run_ctor (tid : Z) (a : list Z) : list Z :=
   | _ => [99]
   end.
 (* mode 0: parse text; 1: print args; 2: ctor args; 3: parse bytes given in args; 4: recogniser on text;
-   5: recogniser on bytes *)
+   5: recogniser on bytes; 6: the pre-repair float expression on the digits of the text (XsdOldUs.us_float) *)
 Definition run_case (mode tid : Z) (txt : string) (a : list Z) : list Z :=
   match mode with
   | 0 => run_parse tid (L txt)
@@ -116,7 +116,8 @@ Definition run_case (mode tid : Z) (txt : string) (a : list Z) : list Z :=
   | 2 => run_ctor tid a
   | 3 => run_parse tid (dec_str a)
   | 4 => run_valid tid (L txt)
-  | _ => run_valid tid (dec_str a)
+  | 5 => run_valid tid (dec_str a)
+  | _ => [us_float (L txt)]
   end.
 Definition check_case (c : Z * Z * string * list Z * Z) : bool :=
   let '(mode, tid, txt, a, h) := c in Z.eqb (hash_zl 0 (run_case mode tid txt a)) h.
